@@ -76,6 +76,7 @@ const POOL: &[(&str, &str, &str)] = &[
     ("e2e", "X-A", "1"), ("e2e", "Accept", "*/*"), ("e2e", "X-A", "2"), ("e2e", "X-B", "keep me"),
     ("cookie", "Cookie", "a=b; SOZUBALANCEID=zz; c=d"),
     ("xff", "X-Forwarded-For", "1.2.3.4"),
+    ("xff", "x-forwarded-for", "5.6.7.8, 9.10.11.12"),
     ("fwd", "Forwarded", "for=9.9.9.9"),
     ("xri", "X-Real-IP", "6.6.6.6"),
     ("xfp", "X-Forwarded-Proto", "https"),
@@ -100,10 +101,12 @@ fn check(mask: u32, elide: bool, send: bool, peer: SocketAddr, public: SocketAdd
     if want != got { return fail(format!("end-to-end headers changed: sent {want:?}, forwarded {got:?}")); }
     // B. cookies other than sozu's sticky cookie
     if chosen.iter().any(|c| c.0 == "cookie") && vals(&h, "cookie") != vec!["a=b; c=d"] { return fail(format!("cookies other than the sticky cookie must be forwarded unchanged: {:?}", vals(&h, "cookie"))); }
-    // C. X-Forwarded-For: the client's elements, then the real peer
+    // C. X-Forwarded-For: the client's elements in their order (over all its X-Forwarded-For fields), then the real peer LAST
     let xff = vals(&h, "x-forwarded-for").join(", ");
-    let want_xff = if chosen.iter().any(|c| c.0 == "xff") { format!("1.2.3.4, {}", peer.ip()) } else { peer.ip().to_string() };
-    if xff != want_xff { return fail(format!("X-Forwarded-For must end with the real peer address: {xff:?}, expected {want_xff:?}")); }
+    let mut want_xff: Vec<String> = chosen.iter().filter(|c| c.0 == "xff").map(|c| c.2.to_string()).collect();
+    want_xff.push(peer.ip().to_string());
+    let want_xff = want_xff.join(", ");
+    if xff != want_xff { return fail(format!("X-Forwarded-For must keep the client's elements and end with the real peer address: {xff:?}, expected {want_xff:?}")); }
     // D. Forwarded: the appended element names the real peer
     let fwd = vals(&h, "forwarded").join(", ");
     let last = fwd.rsplit(',').next().unwrap_or("");
